@@ -19,24 +19,35 @@ import (
 
 // rng adapts hx.Rand to bb-storage's random generator interfaces (inode
 // numbers and file handles only; never compared).
-type rng struct{ r *hx.Rand }
+type rng struct {
+	r  *hx.Rand
+	mu *sync.Mutex
+}
 
-func (g rng) Float64() float64     { return float64(g.r.Uint64()>>11) / (1 << 53) }
-func (g rng) Int64N(n int64) int64 { return int64(g.r.Uint64() % uint64(n)) }
-func (g rng) IntN(n int) int       { return g.r.Intn(n) }
-func (g rng) Uint32() uint32       { return uint32(g.r.Uint64()) }
-func (g rng) Uint64() uint64       { return g.r.Uint64() }
+func newRng(r *hx.Rand) rng { return rng{r: r, mu: &sync.Mutex{}} }
+
+func (g rng) u64() uint64 {
+	g.mu.Lock()
+	defer g.mu.Unlock()
+	return g.r.Uint64()
+}
+
+func (g rng) Float64() float64     { return float64(g.u64()>>11) / (1 << 53) }
+func (g rng) Int64N(n int64) int64 { return int64(g.u64() % uint64(n)) }
+func (g rng) IntN(n int) int       { return int(g.u64() % uint64(n)) }
+func (g rng) Uint32() uint32       { return uint32(g.u64()) }
+func (g rng) Uint64() uint64       { return g.u64() }
 func (g rng) IsThreadSafe()        {}
 func (g rng) Read(p []byte) (int, error) {
 	for i := range p {
-		p[i] = byte(g.r.Uint64())
+		p[i] = byte(g.u64())
 	}
 	return len(p), nil
 }
 
 func (g rng) Shuffle(n int, swap func(i, j int)) {
 	for i := n - 1; i > 0; i-- {
-		swap(i, g.r.Intn(i+1))
+		swap(i, g.IntN(i+1))
 	}
 }
 
@@ -103,6 +114,7 @@ func (l *collectingLogger) Log(err error) {
 // (any Put during a case is a finding), and fails Get for the digests in
 // `failing` (fault injection, set per operation).
 type fakeCAS struct {
+	mu    sync.Mutex
 	blobs    map[string][]byte // key: casKeyOf(hash, size)
 	failing  map[string]bool
 	injected int
@@ -117,6 +129,8 @@ func newFakeCAS() *fakeCAS {
 func casKey(d digest.Digest) string { return casKeyOf(d.GetHashString(), d.GetSizeBytes()) }
 
 func (c *fakeCAS) Get(ctx context.Context, d digest.Digest) buffer.Buffer {
+	c.mu.Lock()
+	defer c.mu.Unlock()
 	c.gets++
 	k := casKey(d)
 	if c.failing[k] {
@@ -135,6 +149,8 @@ func (c *fakeCAS) GetFromComposite(ctx context.Context, parentDigest, childDiges
 }
 
 func (c *fakeCAS) Put(ctx context.Context, d digest.Digest, b buffer.Buffer) error {
+	c.mu.Lock()
+	defer c.mu.Unlock()
 	c.puts++
 	data, err := b.ToByteSlice(1 << 20)
 	if err != nil {
